@@ -190,13 +190,13 @@ type shardResult struct {
 	exit   int
 }
 
-func runShard(bin string, cfg config, id string, checks int, seed uint64, shard int, work string, timeout time.Duration) shardResult {
+func runShard(bin string, cfg config, id string, checks int, seed uint64, shard, shards int, work string, timeout time.Duration) shardResult {
 	out := filepath.Join(work, fmt.Sprintf("shard-%d.json", shard))
 	args := []string{"-test.run", cfg.Tests, "-test.timeout", timeout.String(), "-test.count=1",
 		"-rapid.checks=" + strconv.Itoa(checks), "-rapid.seed=" + strconv.FormatUint(seed, 10), "-rapid.nofailfile", "-rapid.shrinktime=20s"}
 	cmd := exec.Command(bin, args...)
 	cmd.Dir = work
-	cmd.Env = append(os.Environ(), "VERIF_OUT="+out, "VERIF_SHARD="+strconv.Itoa(shard), "VERIF_CHECKS="+strconv.Itoa(checks),
+	cmd.Env = append(os.Environ(), "VERIF_OUT="+out, "VERIF_SHARD="+strconv.Itoa(shard), "VERIF_SHARDS="+strconv.Itoa(shards), "VERIF_CHECKS="+strconv.Itoa(checks),
 		"VERIF_SHARD_SEED="+strconv.FormatUint(seed, 10), "VERIF_WORK="+work)
 	cmd.Env = append(cmd.Env, cfg.Env...)
 	if cfg.Race {
@@ -398,7 +398,7 @@ func run(id string, cfg config, tier string, seed int64, work string, replayPath
 		wg.Add(1)
 		go func(i int) {
 			defer wg.Done()
-			results[i] = runShard(bin, cfg, id, checks, mix(seed, id, i), i, work, timeout)
+			results[i] = runShard(bin, cfg, id, checks, mix(seed, id, i), i, shards, work, timeout)
 		}(i)
 	}
 	wg.Wait()
